@@ -71,7 +71,8 @@ theorem C10_elaborate_fail (env : Env) (s : St) (f : FrameRec) (d : Nat) (rest :
   simp [elabStep, h, hr, elabOutcome, requeue, replacing]
 
 /-- **insert**: a result ending in `next_inner` queues its other items before the rest, which is kept
-whole — `next_inner` included, at its own depth. -/
+whole — `next_inner` included; only its recorded depth is capped at the inserting frame's depth, so that
+a PRUNE issued by one of the inserted items cannot remove it. -/
 theorem C10_insert (env : Env) (s : St) (f : FrameRec) (d : Nat) (rest : List EE) (es : List Elem)
     (h : s.toElab = ⟨.frameObj f, d⟩ :: rest)
     (hr : env.elabFn f.pyframe (nextView rest.head?) = .seq es)
@@ -79,12 +80,20 @@ theorem C10_insert (env : Env) (s : St) (f : FrameRec) (d : Nat) (rest : List EE
     (hins : (es.map (resolveElem (nextObj rest.head?))).getLast? = some (nextObj rest.head?)) :
     ∃ s', elabStep env s = .inr s' ∧ s'.toElab = []
       ∧ s'.toUnwrap = ((es.map (resolveElem (nextObj rest.head?))).dropLast).map (fun o => ⟨betterOrigin env o none, o, d⟩)
-                        ++ backOf rest := by
+                        ++ capHead d (backOf rest)
+      ∧ (capHead d (backOf rest)).map (·.cur) = rest.map (·.node)
+      ∧ (capHead d (backOf rest)).drop 1 = (backOf rest).drop 1 := by
   have hcond : replacing (es.map (resolveElem (nextObj rest.head?))) (nextObj rest.head?) = false := by
     unfold replacing
     simp [hne, hins]
   simp only [elabStep, h, hr, elabOutcome, requeue, hcond]
-  exact ⟨_, rfl, rfl, rfl⟩
+  refine ⟨_, rfl, rfl, rfl, ?_, ?_⟩
+  · cases rest with
+    | nil => rfl
+    | cons x xs => simp [backOf, capHead]
+  · cases rest with
+    | nil => rfl
+    | cons x xs => simp [backOf, capHead]
 
 /-- **unwrap to a fixpoint**: when the unwrap phase ends nothing is left to unwrap, no frame was
 emitted or altered by it, and no raw python frame is left among the pending nodes that it added —
